@@ -531,7 +531,12 @@ impl FormatSpec {
                 FormatSign::MinusOrSpace => " ",
             }
         };
-        let magnitude_str = self.add_magnitude_separators(raw_magnitude_str?, sign_str);
+        let magnitude_str = if num.is_finite() {
+            self.add_magnitude_separators(raw_magnitude_str?, sign_str)
+        } else {
+            // `inf` and `nan` have no digits to group: format(inf, "010,") is "0000000inf"
+            raw_magnitude_str?
+        };
         self.format_sign_and_align(&AsciiStr::new(&magnitude_str), sign_str, FormatAlign::Right)
     }
 
